@@ -25,7 +25,7 @@ SCHEMES = ['perm', 'neg', 'str', 'tuple', 'mixed', 'offset']
 
 
 def gen_cases(tier, seed):
-    per = {'quick': 40, 'thorough': 1500}[tier]
+    per = {'quick': 80, 'thorough': 1500}[tier]
     out = []
     k = 0
     for name in GRAPH_ENTRIES:
@@ -44,7 +44,7 @@ def gen_cases(tier, seed):
             c['kind'] = 'ode'
             c['tcount'] = 7
             out.append(c)
-    ns = {'quick': 400, 'thorough': 40000}[tier]
+    ns = {'quick': 1200, 'thorough': 40000}[tier]
     for j in range(ns * len(SIMS)):
         cs = case_seed(seed, PID + 'sim', j)
         r = random.Random(cs)
